@@ -29,17 +29,34 @@ def run_impl_only(text):
             pass
 
 
-def others_view(trace, h):
-    """what the rest of the loop shows: callbacks of every other source, and the result of every dispatch"""
+def others_view(trace, h, other=None):
+    """what the rest of the loop shows: callbacks of every other source, and the result of every dispatch - command by command, and only
+    as long as source h ITSELF is called in the same way in the run it is compared with (`other`): the property lets a failed call affect
+    its own source (a failed disable may leave it half disabled), and once that source's own callbacks or hooks differ, an error it
+    returns - or no longer returns - legitimately changes the result of the dispatch and what is left of its batch"""
+    def segments(tr):
+        segs, cur = [], []
+        for l in tr:
+            if l == "17":
+                segs.append(cur)
+                cur = []
+            else:
+                cur.append(l)
+        segs.append(cur)
+        return segs
+
+    def own(seg):
+        return [l for l in seg if l.split()[0] in ("2", "3", "4") and l.split()[1] == str(h)]
+
+    mine, theirs = segments(trace), segments(other) if other is not None else None
     out = []
-    for l in trace:
-        ws = l.split()
-        if ws[0] == "2" and ws[1] != str(h):
-            out.append(l)
-        elif ws[0] == "6":
-            out.append(l)
-        elif ws[0] == "10":
-            out.append(l)
+    for i, seg in enumerate(mine):
+        if theirs is not None and (i >= len(theirs) or own(seg) != own(theirs[i])):
+            break
+        for l in seg:
+            ws = l.split()
+            if (ws[0] == "2" and ws[1] != str(h)) or ws[0] in ("6", "10"):
+                out.append(l)
     return out
 
 
@@ -70,7 +87,15 @@ def counterfactual(text, impl):
                 continue
             variant = "\n".join(lines[:cmd_idx[k]] + lines[cmd_idx[k] + 1:]) + "\n"
             alt = run_impl_only(variant)
-            a, b = others_view(impl, ws[2]), others_view(alt, ws[2])
+            # the variant has one top-level command less: re-align by dropping the CMD marker of the deleted command from the original
+            impl2, seen = [], -1
+            for l in impl:
+                if l == "17":
+                    seen += 1
+                    if seen == k:
+                        continue
+                impl2.append(l)
+            a, b = others_view(impl2, ws[2], alt), others_view(alt, ws[2], impl2)
             if a != b:
                 n = next((i for i in range(max(len(a), len(b))) if i >= len(a) or i >= len(b) or a[i] != b[i]), 0)
                 return ["C15/failed-op-affects-others: `%s` returned an IO error, yet the other sources behave differently than without that call: "
